@@ -16,13 +16,17 @@ func maxRankSize() (int, int) {
 	return 3, 3
 }
 
-// tierShapes: the shapes a single-operand enumeration visits. Quick: every shape of rank <= 3 with sizes <= 3. Thorough:
-// rank <= 4 with sizes <= 4, plus every shape of rank 5 and 6 with sizes <= 2 (the properties quantify over ranks 0..6).
+// tierShapes: the shapes a single-operand enumeration visits. Quick: every shape of rank <= 3 with sizes <= 3, plus every
+// shape of rank 4 and 5 with sizes <= 2 (the generators behave differently once there are two or more leading
+// dimensions: seeds C04-1, C04-3). Thorough: rank <= 4 with sizes <= 4, plus every shape of rank 5 and 6 with sizes <= 2
+// (the properties quantify over ranks 0..6).
 func tierShapes(minRank int) [][]int {
 	mr, ms := maxRankSize()
 	out := shapes(minRank, mr, ms)
 	if thorough() {
 		out = append(out, shapes(5, 6, 2)...)
+	} else {
+		out = append(out, shapes(4, 5, 2)...)
 	}
 	return out
 }
